@@ -61,6 +61,13 @@ pub fn run(args: &Args, rec: &mut Recorder) {
         let mut lc = if rng.coin() { LayoutCfg::c05(rng) } else { LayoutCfg::wide(rng) };
         lc.first_on_line1 = rng.coin();
         let mut text = render(&doc.flatten(), &lc, rng).text;
+        // a comment at the very start whose text begins right behind the marker with a character
+        // beyond Latin-1 (the encoding detection looks at the first bytes of the file)
+        if rng.chance(1, 4) {
+            let head = *rng.pick(&["/*中文 kommentar*/\n", "//€ preis\n", "/*Ω*/ ", "/*\u{1F600}*/\n", "//ж\n"]);
+            text = format!("{head}{text}");
+            rec.bump("docs.starting_with_a_non_latin1_comment");
+        }
         // make sure non-ASCII, astral and combining characters occur in a comment too
         if rng.coin() {
             text.push_str("\n/* ünïcödé \u{1F600} a\u{0301} \u{10348} */\n");
